@@ -16,7 +16,7 @@ git checkout -q -- .
 git stash drop -q 2>/dev/null
 cp out/$M/patch.diff out/$M/demo_test.rs $OUT/; cp out/$M/notes.md $OUT/notes.md
 S=/var/tmp/yq-seed-$$; rm -rf $S; mkdir -p $S; rsync -a --exclude target --exclude .git /repo/ $S/; (cd $S && git apply $OUT/patch.diff)
-cd /verif && YQV_REPO=$S ./check $PROP > /tmp/check_x.txt 2>&1; RC_CHECK=$?
+cd /verif && YQV_EVIDENCE=/var/tmp/yq-scratch-evidence YQV_REPLAYS=/var/tmp/yq-scratch-replays YQV_REPO=$S ./check $PROP > /tmp/check_x.txt 2>&1; RC_CHECK=$?
 rm -rf $S
 grep -E "^(VIOLATION|UNDECIDED|KNOWN-FINDING|property|obligation failed)" /tmp/check_x.txt | cut -c1-300 > $OUT/check_output.txt
 python3 - "$OUT" "$PROP" "$M" "$TESTS" "$RC_WITH" "$RC_WITHOUT" "$RC_CHECK" "$NAME" "$SRC" <<'PY'
